@@ -628,6 +628,8 @@ def finding_of(d, direction):
         return "json-int-beyond-int64-float" if direction == "json" else None
     if direction == "json" and kind == "s" and isinstance(got, str) and want.startswith("\n") and got == want[1:]:
         return "yaml-literal-leading-newline-lost"
+    if direction == "json" and kind == "s" and isinstance(got, str) and want[:1] in ("\u2028", "\u2029") and "\n" in want and got == want[1:]:
+        return "yaml-literal-leading-linesep-lost"
     return None
 
 
@@ -1120,7 +1122,8 @@ def run(chk):
                GT("a", items=[GT("s", chr(c)) for c in SPECIAL_CP]), deep_gt(30, GT("s", "x")),
                GT("a", items=[GT("f", f, repr(f)) for f in (0.1, 1.5, -2.25, 1e300, 5e-324, 1e-7, 1e21, 123456.789)]),
                GT("a", items=[GT("a", items=[]), GT("o", items=[]), GT("s", "")]),
-               GT("a", items=[GT("s", "\na")]), GT("a", items=[GT("s", "\ta\n")]), GT("o", items=[("<<", GT("i", 1, "1")), ("b", GT("i", 2, "2"))])]
+               GT("a", items=[GT("s", "\na")]), GT("a", items=[GT("s", "\ta\n")]),
+               GT("o", items=[("\u2028\nk", GT("a", items=[GT("s", "\u2028\nx"), GT("s", "\u2029x\ny"), GT("s", "\u2028\u2028\nx"), GT("s", "a\u2028b\nc"), GT("s", "\u2028x")]))]), GT("o", items=[("<<", GT("i", 1, "1")), ("b", GT("i", 2, "2"))])]
     for _ in range(n_rt):
         g = gen_gt(rng, 0, rng.choice([1, 2, 3, 4]))
         rt_docs.append(g)
